@@ -25,6 +25,10 @@ def make_project(nfiles=1, nmod=1, nprog=1, nproc=1, ntype=1, nabs=0, nblock=0, 
             if private_impls and in_module:
                 L.append(f"private :: gimpl{g}")
             C += [f"subroutine gimpl{g}(x)", f"  !! specific {g}", "  !!", f"  !! second paragraph of specific {g}", "  integer :: x", f"end subroutine gimpl{g}"]
+        if ntype and in_module:
+            # explicit interface of an external function whose result is of a derived type
+            L += ["interface", "  function extmk(c) result(r)", "    !! explicit interface of a function returning [[ty1]]", "    import :: ty1", "    integer, intent(in) :: c", "    type(ty1) :: r", "    !! the new object",
+                  "  end function extmk", "end interface"]
         if ngen and ntype and in_module:
             # structure-constructor overload: a generic interface with the name of the type
             L += ["interface ty1", "  !! constructor interface of [[ty1(type)]]", "  module procedure mk_ty1", "end interface ty1"]
